@@ -1,43 +1,372 @@
-// probe (temporary)
+// C04 harness: compaction is invisible to readers.
+//
+// Per case two volumes of one real storage.Store (NeedleMapInMemory) get the same
+// history: run h1 on both, Volume.Compact (scan) or Volume.Compact2 (index) on the
+// first, run h2 on both, Volume.CommitCompact on the first, then every key of the
+// universe is read on both.  The code reads the wall clock, so a blob is aged by
+// rewriting the AppendAtNs of its stored record right after the write (hook
+// VerifC09SetAppendAtNs) and by client-supplied LastModified values; all generated
+// ages are at least half an hour away from every expiry boundary.
+// With -tags 5BytesOffset some cases extend the .dat file with a hole beyond
+// 32 GiB (sparse), so that offsets need the fifth byte.
 package main
 
 import (
 	"fmt"
 	"os"
+	"strings"
 	"time"
 
 	"github.com/chrislusf/seaweedfs/weed/storage"
 	"github.com/chrislusf/seaweedfs/weed/storage/needle"
 	"github.com/chrislusf/seaweedfs/weed/storage/types"
 	"github.com/chrislusf/seaweedfs/weed/util"
+	"verifharness/hx"
 )
 
-func mk(id uint64, cookie uint32, data string, ttl string, lm uint64) *needle.Needle {
-	n := new(needle.Needle)
-	n.Id = types.NeedleId(id)
-	n.Cookie = types.Cookie(cookie)
-	n.Data = []byte(data)
-	n.Checksum = needle.NewCRC(n.Data)
-	n.Ttl, _ = needle.ReadTTL(ttl)
-	if n.Ttl != needle.EMPTY_TTL {
-		n.SetHasTtl()
+type nd struct {
+	id      uint64
+	cookie  uint32
+	tag, ln int // payload = pat(tag, ln)
+	flags   byte
+	name    string
+	mime    string
+	lastmod uint64
+	tc, tu  byte
+}
+
+const (
+	kWrite = iota
+	kDelete
+	kPad
+)
+
+type ev struct {
+	kind   int
+	t      uint64 // AppendAtNs of the record this event appends
+	n      nd
+	id     uint64
+	cookie uint32
+	off    uint64
+}
+
+type ttl struct {
+	s      string
+	tc, tu byte
+	min    uint64
+}
+
+var (
+	noTTL      = ttl{"", 0, 0, 0}
+	volTTLs    = []ttl{noTTL, noTTL, noTTL, noTTL, noTTL, noTTL, noTTL, {"1m", 1, 1, 1}, {"1h", 1, 2, 60}, {"1h", 1, 2, 60}, {"3d", 3, 3, 4320}, {"3d", 3, 3, 4320}, {"137y", 137, 6, 137 * 525600}, {"0m", 0, 1, 0}}
+	needleTTLs = []ttl{noTTL, noTTL, noTTL, noTTL, noTTL, noTTL, noTTL, noTTL, noTTL, noTTL, noTTL, noTTL, {"1m", 1, 1, 1}, {"1h", 1, 2, 60}, {"3d", 3, 3, 4320}, {"5y", 5, 6, 5 * 525600}}
+)
+
+func pat(tag, n int) []byte {
+	b := make([]byte, n)
+	for i := range b {
+		b[i] = byte((tag*131 + i*7) % 256)
 	}
-	if lm != 0 {
-		n.LastModified = lm
-		n.SetHasLastModifiedDate()
+	return b
+}
+
+func u(v uint64) string { return fmt.Sprintf("%d", v) }
+
+func strTerm(s string) string {
+	if s == "" {
+		return "[]"
+	}
+	return "(str " + hx.Str(s) + ")"
+}
+
+func (n nd) term() string {
+	return fmt.Sprintf("(mkn %d %d (pat %d %d) %d %s %s %s %d %d)", n.id, n.cookie, n.tag, n.ln, n.flags,
+		strTerm(n.name), strTerm(n.mime), u(n.lastmod), n.tc, n.tu)
+}
+
+func (e ev) term() string {
+	switch e.kind {
+	case kWrite:
+		return fmt.Sprintf("W %s %s", u(e.t), e.n.term())
+	case kDelete:
+		return fmt.Sprintf("D %s %d %d", u(e.t), e.id, e.cookie)
+	}
+	return fmt.Sprintf("P %s", u(e.off))
+}
+
+// canonical form: times relative to the generation instant
+func (e ev) canon(nowNs uint64) string {
+	switch e.kind {
+	case kWrite:
+		n := e.n
+		return fmt.Sprintf("W%d.%x.p%d.%d.f%x.%s.%s.lm%d.t%d.%d.age%d", n.id, n.cookie, n.tag, n.ln, n.flags, n.name, n.mime,
+			int64(n.lastmod)-int64(nowNs/1e9), n.tc, n.tu, (int64(nowNs)-int64(e.t))/1e9)
+	case kDelete:
+		return fmt.Sprintf("D%d.%x", e.id, e.cookie)
+	}
+	return fmt.Sprintf("P%d", e.off)
+}
+
+func errClass(err error) string {
+	switch {
+	case err == nil:
+		return "ENone"
+	case err == storage.ErrorNotFound:
+		return "ENotFound"
+	case err == storage.ErrorDeleted:
+		return "EDeleted"
+	case strings.Contains(err.Error(), "mismatching cookie"):
+		return "ECookie"
+	case strings.Contains(err.Error(), "is read only"):
+		return "EReadOnly"
+	}
+	return "EOther"
+}
+
+type env struct {
+	s    *storage.Store
+	next int
+	out  *hx.Out
+}
+
+func (e *env) addVolume(t ttl) needle.VolumeId {
+	e.next++
+	vid := needle.VolumeId(e.next)
+	hx.Must(e.s.AddVolume(vid, "", storage.NeedleMapInMemory, "000", t.s, 0, 0, types.HardDriveType))
+	return vid
+}
+
+// apply runs one event on one volume and returns the Coq term of the answer.
+func (e *env) apply(vid needle.VolumeId, x ev) string {
+	switch x.kind {
+	case kWrite:
+		n := x.n
+		nn := &needle.Needle{Id: types.NeedleId(n.id), Cookie: types.Cookie(n.cookie), Flags: n.flags, LastModified: n.lastmod}
+		nn.Data = pat(n.tag, n.ln)
+		nn.Name = []byte(n.name)
+		nn.Mime = []byte(n.mime)
+		if n.tc != 0 || n.tu != 0 {
+			nn.Ttl = &needle.TTL{Count: n.tc, Unit: n.tu}
+		} else {
+			nn.Ttl = needle.EMPTY_TTL // what ReadTTL("") gives to CreateNeedleFromRequest
+		}
+		nn.Checksum = needle.NewCRC(nn.Data)
+		unchanged, err := e.s.WriteVolumeNeedle(vid, nn, false)
+		if err == nil && !unchanged && n.ln > 0 {
+			hx.Must(e.s.GetVolume(vid).VerifC09SetAppendAtNs(n.id, x.t))
+		}
+		return fmt.Sprintf("RWrite %s %s %d", errClass(err), hx.Bool(unchanged), nn.Size)
+	case kDelete:
+		nn := &needle.Needle{Id: types.NeedleId(x.id), Cookie: types.Cookie(x.cookie)}
+		size, err := e.s.DeleteVolumeNeedle(vid, nn)
+		return fmt.Sprintf("RDelete %s %s", errClass(err), hx.Z(int64(size)))
+	}
+	hx.Must(e.s.GetVolume(vid).DataBackend.Truncate(int64(x.off)))
+	return "RPad"
+}
+
+func (e *env) read(vid needle.VolumeId, id uint64) (term string, found bool) {
+	n := &needle.Needle{Id: types.NeedleId(id)}
+	count, err := e.s.ReadVolumeNeedle(vid, n, nil)
+	if err != nil {
+		return fmt.Sprintf("no %s %s", errClass(err), hx.Z(int64(count))), false
+	}
+	var tc, tu byte
+	if n.Ttl != nil {
+		tc, tu = n.Ttl.Count, n.Ttl.Unit
+	}
+	return fmt.Sprintf("ok %s (mkv %d %d %s %d %s %s %s %d %d)", hx.Z(int64(count)), uint32(n.Cookie), int32(n.Size),
+		hx.Bytes(n.Data), n.Flags, hx.Bytes(n.Name), hx.Bytes(n.Mime), u(n.LastModified), tc, tu), len(n.Data) > 0
+}
+
+type plan struct {
+	kind   string
+	vt     ttl
+	scan   bool
+	h1, h2 []ev
+	keys   []uint64
+}
+
+// runCase executes one plan on a fresh pair of volumes and records the case.
+func (e *env) runCase(p plan, genNowNs uint64) {
+	t0 := time.Now()
+	a, b := e.addVolume(p.vt), e.addVolume(p.vt)
+	var answers []string
+	run := func(h []ev) {
+		for _, x := range h {
+			ra := e.apply(a, x)
+			rb := e.apply(b, x)
+			if ra != rb {
+				panic(fmt.Sprintf("the two volumes answered differently to %s: %s / %s", x.term(), ra, rb))
+			}
+			answers = append(answers, ra)
+		}
+	}
+	run(p.h1)
+	va := e.s.GetVolume(a)
+	nowS := uint64(time.Now().Unix())
+	if p.scan {
+		hx.Must(va.Compact(0, 0))
+	} else {
+		hx.Must(va.Compact2(0, 0))
+	}
+	run(p.h2)
+	hx.Must(va.CommitCompact())
+	nowR := uint64(time.Now().UnixNano())
+	var ra, rb []string
+	nontrivial := false
+	for _, k := range p.keys {
+		ta, _ := e.read(a, k)
+		tb, fb := e.read(b, k)
+		ra = append(ra, ta)
+		rb = append(rb, tb)
+		if fb {
+			nontrivial = true
+		}
+		if ta != tb {
+			e.out.Count("read:differs", 1)
+		} else {
+			e.out.Count("read:same", 1)
+		}
+	}
+	datA, idxA, _ := va.FileStat()
+	datB, _, _ := e.s.GetVolume(b).FileStat()
+	ro := va.IsReadOnly()
+	hx.Must(e.s.DeleteVolume(a))
+	hx.Must(e.s.DeleteVolume(b))
+	if time.Since(t0) > 20*time.Second {
+		panic("case took more than 20 s: the expiry margins are no longer safe")
+	}
+
+	algo := "Index"
+	if p.scan {
+		algo = "Scan"
+	}
+	terms := func(h []ev) string {
+		xs := make([]string, len(h))
+		for i, x := range h {
+			xs[i] = x.term()
+		}
+		return hx.List(xs)
+	}
+	var canon []string
+	for _, x := range p.h1 {
+		canon = append(canon, x.canon(genNowNs))
+		e.out.Count(fmt.Sprintf("op:%d", x.kind), 1)
+	}
+	canon = append(canon, "|"+algo+"|")
+	for _, x := range p.h2 {
+		canon = append(canon, x.canon(genNowNs))
+		e.out.Count(fmt.Sprintf("op:%d", x.kind), 1)
+	}
+	term := fmt.Sprintf("{| vttl := (%d%%N, %d%%N); osz := %d; algo := %s; now_s := %s; now_r := %s; h1 := %s; h2 := %s; keys := %s; impl_ev := %s; impl_main := %s; impl_twin := %s; fin_dat := %s; fin_idx := %s; fin_ro := %s; twin_dat := %s |}",
+		p.vt.tc, p.vt.tu, types.OffsetSize, algo, u(nowS), u(nowR), terms(p.h1), terms(p.h2), hx.NList(p.keys),
+		hx.List(answers), hx.List(ra), hx.List(rb), u(datA), u(idxA/uint64(types.NeedleMapEntrySize)), hx.Bool(ro), u(datB))
+	e.out.Add(term, fmt.Sprintf("vt%s;%s", p.vt.s, strings.Join(canon, ";")), nontrivial, p.kind)
+	e.out.Count("alg:"+algo, 1)
+	e.out.Count("vttl:"+p.vt.s, 1)
+	e.out.Count(fmt.Sprintf("len-h1:%d", len(p.h1)), 1)
+	e.out.Count(fmt.Sprintf("len-h2:%d", len(p.h2)), 1)
+}
+
+// ---------- generation ----------
+
+const hour = uint64(3600)
+
+func cookieOf(key uint64, other bool) uint32 {
+	if other {
+		return uint32(0x2000 + key)
+	}
+	return uint32(0x1000 + key)
+}
+
+func genNeedle(r *hx.Rng, key uint64, nowS uint64) nd {
+	n := nd{id: key, cookie: cookieOf(key, r.Chance(1, 8))}
+	n.tag = r.Intn(4)
+	n.ln = r.PickInt([]int{1, 1, 3, 3, 3, 8, 8, 8, 17, 17, 40, 40, 300})
+	if r.Chance(1, 30) {
+		n.ln = 0
+	}
+	if r.Chance(1, 3) {
+		n.name = r.PickStr([]string{"a.txt", "b"})
+		n.flags |= needle.FlagHasName
+	}
+	if r.Chance(1, 4) {
+		n.mime = "text/plain"
+		n.flags |= needle.FlagHasMime
+	}
+	if !r.Chance(1, 12) {
+		n.flags |= needle.FlagHasLastModifiedDate
+		n.lastmod = uint64(int64(nowS) + int64(r.PickInt([]int{0, 0, 0, -2 * 3600, -10 * 86400, -400 * 86400, 2 * 3600, 10 * 86400})))
+	}
+	t := needleTTLs[r.Intn(len(needleTTLs))]
+	if t.s != "" {
+		n.tc, n.tu = t.tc, t.tu
+		n.flags |= needle.FlagHasTtl
 	}
 	return n
 }
 
-func read(s *storage.Store, vid int, id uint64) string {
-	n := new(needle.Needle)
-	n.Id = types.NeedleId(id)
-	c, err := s.ReadVolumeNeedle(needle.VolumeId(vid), n, nil)
-	return fmt.Sprintf("id%d: count=%d err=%v data=%q cookie=%x", id, c, err, n.Data, n.Cookie)
+// appendAt picks the AppendAtNs of a record: fresh, 30 minutes old, or an hour past the
+// TTL (of the needle, or of the volume when the needle has none)
+func appendAt(r *hx.Rng, nowNs uint64, n nd, vt ttl, seq int) uint64 {
+	min := uint64(0)
+	switch {
+	case n.tc != 0:
+		min = ttlMinutes(n.tc, n.tu)
+	case vt.s != "":
+		min = vt.min
+	}
+	age := uint64(0)
+	switch r.Intn(6) {
+	case 0:
+		age = 1800
+	case 1:
+		if min > 0 && min < 100*525600 { // keep AppendAtNs positive
+			age = min*60 + 3600
+		}
+	case 2:
+		age = 5 * 86400
+	}
+	return nowNs - age*1e9 + uint64(seq)
 }
 
+func ttlMinutes(c, un byte) uint64 {
+	m := []uint64{0, 1, 60, 1440, 10080, 43200, 525600}
+	return uint64(c) * m[un]
+}
+
+func genOps(r *hx.Rng, n int, keys []uint64, nowNs uint64, vt ttl, seq *int) []ev {
+	var h []ev
+	for i := 0; i < n; i++ {
+		key := keys[r.Intn(len(keys))]
+		*seq++
+		if r.Chance(1, 3) {
+			h = append(h, ev{kind: kDelete, t: nowNs + uint64(*seq), id: key, cookie: cookieOf(key, false)})
+		} else {
+			nn := genNeedle(r, key, nowNs/1e9)
+			h = append(h, ev{kind: kWrite, t: appendAt(r, nowNs, nn, vt, *seq), n: nn})
+		}
+	}
+	return h
+}
+
+func w(t uint64, id uint64, tag, ln int, lastmod uint64, tt ttl) ev {
+	n := nd{id: id, cookie: cookieOf(id, false), tag: tag, ln: ln, lastmod: lastmod, flags: needle.FlagHasLastModifiedDate, tc: tt.tc, tu: tt.tu}
+	if tt.s != "" {
+		n.flags |= needle.FlagHasTtl
+	}
+	return ev{kind: kWrite, t: t, n: n}
+}
+
+const beyond32g = uint64(1<<35 + 64)
+
 func main() {
-	dir, _ := os.MkdirTemp("", "c04probe")
+	out := hx.Flags("C04", 200)
+	five := types.OffsetSize == 5
+	out.Rule = "per case two real volumes get the same phase-structured history (h1, Compact or Compact2 on the first volume, h2, CommitCompact on the first volume), 0-12 operations per phase over 3-4 keys x 2 cookies: writes (payload pat(tag<4, len in {0,1,3,8,17,40,300}), optional name/mime, needle TTL none/1m/1h/3d/5y, LastModified now/-2h/-10d/-400d/+2h/+10d or absent, AppendAtNs fresh/30 min old/TTL+1h old/5 days old) and deletes; volume TTL none/1m/1h/3d/137y/0m; then every key is read on both volumes; the first cases are the fixed witnesses of the known findings; with 5-byte offsets a fifth of the cases extend the .dat beyond 32 GiB (sparse) before or during the compaction and then touch a single key in h2; non-trivial = the never-compacted volume serves a non-empty blob for some key; distinct = canonical history with times relative to the generation instant"
+	dir, err := os.MkdirTemp("", "c04-vol")
+	hx.Must(err)
 	defer os.RemoveAll(dir)
 	s := storage.NewStore(nil, 0, "localhost", "localhost", []string{dir}, []int{1 << 20},
 		[]util.MinFreeSpace{{Type: util.AsPercent, Percent: 0}}, "", storage.NeedleMapInMemory, []types.DiskType{types.HardDriveType})
@@ -49,78 +378,84 @@ func main() {
 		for range s.DeletedVolumesChan {
 		}
 	}()
-	now := uint64(time.Now().Unix())
-	w := func(vid int, n *needle.Needle) {
-		_, err := s.WriteVolumeNeedle(needle.VolumeId(vid), n, false)
-		if err != nil {
-			fmt.Println("write err", err)
+	e := &env{s: s, out: out}
+	root := hx.NewRng(out.Seed)
+
+	// fixed witnesses of the known findings
+	{
+		now := uint64(time.Now().UnixNano())
+		ns := now / 1e9
+		keys := []uint64{1, 2}
+		d3 := ttl{"3d", 3, 3, 4320}
+		wit := []plan{
+			// 0: an empty blob is dropped by the compaction
+			{kind: "witness-empty", vt: noTTL, scan: false, keys: keys, h1: []ev{w(now, 1, 0, 0, ns, noTTL), w(now+1, 2, 1, 3, ns, noTTL)}},
+			// 1: a needle with its own TTL in a volume without TTL is dropped although it is readable for 3 more days
+			{kind: "witness-ttl", vt: noTTL, scan: false, keys: keys, h1: []ev{w(now, 1, 0, 3, ns, d3), w(now+1, 2, 1, 3, ns, noTTL)}},
+			// 2: scan-based compaction: the key-sorted .cpx makes the reload truncate the .dat
+			{kind: "witness-scan-order", vt: noTTL, scan: true, keys: keys, h1: []ev{w(now, 2, 0, 3, ns, noTTL), w(now+1, 1, 1, 3, ns, noTTL)}},
+			// 1 again: TTL volume, client-supplied old LastModified
+			{kind: "witness-ttl-lastmod", vt: d3, scan: true, keys: keys, h1: []ev{w(now, 1, 0, 3, ns-10*86400, noTTL), w(now+1, 2, 1, 3, ns, noTTL)}},
+			// 0 again: overwriting with an empty blob during the compaction acts as a delete
+			{kind: "witness-empty-h2", vt: noTTL, scan: false, keys: keys, h1: []ev{w(now, 1, 0, 3, ns, noTTL), w(now+1, 2, 1, 3, ns, noTTL)}, h2: []ev{w(now+2, 1, 0, 0, ns, noTTL)}},
 		}
-	}
-	d := func(vid int, id uint64, cookie uint32) {
-		n := new(needle.Needle)
-		n.Id = types.NeedleId(id)
-		n.Cookie = types.Cookie(cookie)
-		sz, err := s.DeleteVolumeNeedle(needle.VolumeId(vid), n)
-		fmt.Println("delete", id, sz, err)
-	}
-	vid := 0
-	scenario := func(name string, ttl string, alg int, h1, h2 func(vid int), keys []uint64) {
-		vid++
-		a := vid
-		vid++
-		b := vid
-		hx := func(e error) {
-			if e != nil {
-				panic(e)
+		if five {
+			// 3: a write beyond 32 GiB during the compaction is lost (fifth offset byte kept from the old entry)
+			wit = append(wit, plan{kind: "witness-fifth-byte", vt: noTTL, scan: false, keys: keys,
+				h1: []ev{w(now, 1, 0, 3, ns, noTTL)}, h2: []ev{{kind: kPad, off: beyond32g}, w(now+1, 2, 1, 3, ns, noTTL)}})
+		}
+		for _, p := range wit {
+			if out.Len() < out.N {
+				e.runCase(p, now)
 			}
 		}
-		hx(s.AddVolume(needle.VolumeId(a), "", storage.NeedleMapInMemory, "000", ttl, 0, 0, types.HardDriveType))
-		hx(s.AddVolume(needle.VolumeId(b), "", storage.NeedleMapInMemory, "000", ttl, 0, 0, types.HardDriveType))
-		h1(a)
-		h1(b)
-		v := s.GetVolume(needle.VolumeId(a))
-		if alg == 1 {
-			fmt.Println(name, "Compact:", v.Compact(0, 0))
+	}
+
+	for out.Len() < out.N {
+		r := root.Fork()
+		now := uint64(time.Now().UnixNano())
+		nk := r.Range(3, 4)
+		keys := make([]uint64, nk)
+		for i := range keys {
+			keys[i] = uint64(i + 1)
+		}
+		p := plan{kind: "random", vt: volTTLs[r.Intn(len(volTTLs))], scan: r.Bool(), keys: keys}
+		seq := 0
+		n1 := r.Range(0, 12)
+		if r.Chance(4, 5) && n1 < 3 {
+			n1 = 3
+		}
+		n2 := 0
+		if !r.Chance(1, 4) {
+			n2 = r.Range(1, 12)
+		}
+		mode := 0
+		if five {
+			mode = r.Intn(10) // 0: hole during the compaction, 1: hole before it (index-based only)
 		} else {
-			fmt.Println(name, "Compact2:", v.Compact2(0, 0))
+			mode = 9
 		}
-		h2(a)
-		h2(b)
-		fmt.Println(name, "Commit:", v.CommitCompact())
-		for _, k := range keys {
-			fmt.Println(name, " compacted", read(s, a, k))
-			fmt.Println(name, " twin     ", read(s, b, k))
+		switch mode {
+		case 0:
+			p.kind = "hole-h2"
+			p.h1 = genOps(r, n1, keys, now, p.vt, &seq)
+			one := []uint64{keys[r.Intn(nk)]}
+			h2 := genOps(r, r.Range(1, 4), one, now, p.vt, &seq)
+			at := r.Intn(len(h2))
+			p.h2 = append(append(append([]ev{}, h2[:at]...), ev{kind: kPad, off: beyond32g}), h2[at:]...)
+		case 1:
+			p.kind = "hole-h1"
+			p.scan = false
+			h1 := genOps(r, n1, keys, now, p.vt, &seq)
+			at := r.Intn(len(h1) + 1)
+			p.h1 = append(append(append([]ev{}, h1[:at]...), ev{kind: kPad, off: beyond32g}), h1[at:]...)
+			one := []uint64{keys[r.Intn(nk)]}
+			p.h2 = genOps(r, r.Range(0, 3), one, now, p.vt, &seq)
+		default:
+			p.h1 = genOps(r, n1, keys, now, p.vt, &seq)
+			p.h2 = genOps(r, n2, keys, now, p.vt, &seq)
 		}
-		ds, is, _ := v.FileStat()
-		fmt.Println(name, "dat", ds, "idx", is, "readonly", v.IsReadOnly())
+		e.runCase(p, now)
 	}
-	none := func(int) {}
-	if types.OffsetSize == 5 {
-		pad := func(v int) {
-			vol := s.GetVolume(needle.VolumeId(v))
-			fmt.Println("pad", vol.DataBackend.Truncate(1<<35+64))
-		}
-		scenario("hi-c2", "", 2, func(v int) { w(v, mk(1, 1, "one", "", now)) }, func(v int) { pad(v); w(v, mk(2, 1, "two", "", now)); }, []uint64{1, 2})
-		scenario("hi-c2-del", "", 2, func(v int) { w(v, mk(1, 1, "one", "", now));  w(v, mk(2, 1, "two", "", now)) }, func(v int) { pad(v); d(v, 2, 1); }, []uint64{1, 2})
-		scenario("hi-c2-h1pad", "", 2, func(v int) { w(v, mk(1, 1, "one", "", now)); pad(v); w(v, mk(2, 1, "two", "", now)) }, func(v int) { w(v, mk(3, 1, "three", "", now)); }, []uint64{1, 2, 3})
-		return
-	}
-	// 1. order: key 2 then key 1, scan-based Compact
-	scenario("order-compact1", "", 1, func(v int) { w(v, mk(2, 1, "two", "", now)); w(v, mk(1, 1, "one", "", now)) }, none, []uint64{1, 2})
-	scenario("order-compact2", "", 2, func(v int) { w(v, mk(2, 1, "two", "", now)); w(v, mk(1, 1, "one", "", now)) }, none, []uint64{1, 2})
-	// 2. empty blob
-	scenario("empty-c1", "", 1, func(v int) { w(v, mk(1, 1, "", "", now)); w(v, mk(2, 1, "x", "", now)) }, none, []uint64{1, 2})
-	scenario("empty-c2", "", 2, func(v int) { w(v, mk(1, 1, "", "", now)); w(v, mk(2, 1, "x", "", now)) }, none, []uint64{1, 2})
-	scenario("empty-h2", "", 2, func(v int) { w(v, mk(1, 1, "one", "", now)); w(v, mk(2, 1, "x", "", now)) }, func(v int) { w(v, mk(1, 1, "", "", now)) }, []uint64{1, 2})
-	// 3. ttl needle in non-ttl volume
-	scenario("ttl-nonttlvol-c1", "", 1, func(v int) { w(v, mk(1, 1, "one", "3d", now)); w(v, mk(2, 1, "x", "", now)) }, none, []uint64{1, 2})
-	scenario("ttl-nonttlvol-c2", "", 2, func(v int) { w(v, mk(1, 1, "one", "3d", now)); w(v, mk(2, 1, "x", "", now)) }, none, []uint64{1, 2})
-	// 4. ttl volume 5m, needle ttl 3d, and old last modified
-	scenario("ttlvol-oldlm-c2", "5m", 2, func(v int) { w(v, mk(1, 1, "one", "3d", now-3600)); w(v, mk(2, 1, "x", "", now)) }, none, []uint64{1, 2})
-	scenario("ttlvol-oldlm-c1", "5m", 1, func(v int) { w(v, mk(1, 1, "one", "", now-3600)); w(v, mk(2, 1, "x", "", now)) }, none, []uint64{1, 2})
-	// 5. h2 ops
-	scenario("h2-c1", "", 1, func(v int) { w(v, mk(1, 1, "one", "", now)); w(v, mk(2, 1, "two", "", now)); w(v, mk(3, 1, "three", "", now)) },
-		func(v int) { d(v, 1, 1); w(v, mk(2, 1, "TWO", "", now)); w(v, mk(4, 1, "four", "", now)); d(v, 4, 1); w(v, mk(5, 1, "five", "", now)) }, []uint64{1, 2, 3, 4, 5})
-	scenario("h2-c2", "", 2, func(v int) { w(v, mk(1, 1, "one", "", now)); w(v, mk(2, 1, "two", "", now)); w(v, mk(3, 1, "three", "", now)) },
-		func(v int) { d(v, 1, 1); w(v, mk(2, 1, "TWO", "", now)); w(v, mk(4, 1, "four", "", now)); d(v, 4, 1); w(v, mk(5, 1, "five", "", now)) }, []uint64{1, 2, 3, 4, 5})
+	out.Write()
 }
